@@ -646,6 +646,17 @@ impl Monitor {
 
     /// A closure / method body begins executing.  `now_seen` is Core::now() inside it.
     pub fn item_start(&mut self, id: ItemId, now_seen: i64) -> R {
+        let tag = self.items[id as usize].ret_tag;
+        self.item_start_inner(id, now_seen).map_err(|mut e| {
+            // the delivery of a ret_to!-style Ret ran when it must not (or out of turn)
+            if tag && !e.props.contains(&"C05") {
+                e.props.push("C05");
+            }
+            e
+        })
+    }
+
+    fn item_start_inner(&mut self, id: ItemId, now_seen: i64) -> R {
         let it = self.items[id as usize].clone();
         let what = format!("item i{} ({:?}, {:?} queue) started", id, it.kind, it.q);
         if self.dropping || self.gone {
@@ -687,7 +698,16 @@ impl Monitor {
                 ));
             }
         }
-        self.check_no_obligations(&what)?;
+        self.check_no_obligations(&what).map_err(|mut e| {
+            // a further call to the actor that has asked to terminate runs before the termination
+            // took effect: also a matter of C02 (stop/fail takes effect at its queue position)
+            if let (Some(pt), Kind::Call(a) | Kind::PrepCall(a)) = (&self.pterm, it.kind) {
+                if pt.aid == a && !e.props.contains(&"C02") {
+                    e.props.push("C02");
+                }
+            }
+            e
+        })?;
         self.run_events += 1;
         if it.q != Q::Idle {
             if std::mem::take(&mut self.due_after_idle) {
